@@ -185,6 +185,13 @@ impl<'a> Gen<'a> {
           let sh = monero::consensus::encode::serialize_hex(a);
           self.o.direct(sh == hex(&serialize(a)), "serialize_hex == hex(serialize)", args.clone(), sh, hex(&serialize(a))); }
         let ser = serialize(a);
+        { let mut want = vec![b.len() as u8]; want.extend_from_slice(&b);
+          self.o.direct(ser == want, "consensus encoding == length byte | as_bytes", args.clone(), hex(&ser), hex(&want));
+          // any legal io::Write (short writes) and io::Read (short reads) give the same bytes, count and value
+          let (cw, cl) = crate::common::encode_chunked(a);
+          self.o.direct(cw == ser && cl == Some(ser.len()), "consensus_encode into a short-writing io::Write gives the same bytes and count", args.clone(), format!("{} bytes ({}), reported {:?}", cw.len(), hex(&cw), cl), format!("{} bytes", ser.len()));
+          let cr = crate::common::decode_chunked::<Address>(&ser);
+          self.o.direct(cr.as_ref().map(|(y, k)| y == a && *k == ser.len()).unwrap_or(false), "consensus_decode from a short-reading io::Read gives the same address and count", args.clone(), format!("{:?}", cr.as_ref().map(|(_, k)| *k)), format!("Some({})", ser.len())); }
         let mut cur = std::io::Cursor::new(&ser[..]);
         let back = Address::consensus_decode(&mut cur);
         self.o.direct(back.as_ref().ok() == Some(a) && cur.position() as usize == ser.len(), "consensus_decode(encode(a))==a", args.clone(), format!("{:?}", back), "a".into());
